@@ -1193,6 +1193,8 @@ class Evaluator:
         nc = _num_conv(name, t)
         if nc is not None and len(args) == 1:
             return cast(args[0], nc[0], nc[1])
+        if len(args) == 1 and _str_conv(name, t):
+            return args[0]          # &str -> String and back: the same text (value semantics)
         for key in (name, declared):
             m = self.models.get(key)
             if m is not None:
@@ -1893,6 +1895,25 @@ def _num_conv(name, t):
         if len(tys) == 2 and tys[0] in NUM_TYS and tys[1] in NUM_TYS:
             return tys[0], tys[1]
     return None
+
+
+_STRS = ("str", "&str", "alloc::string::String", "&alloc::string::String", "&&str")
+_STR_CONV = {"alloc::str::<impl alloc::borrow::ToOwned for str>::to_owned", "<alloc::string::String as core::convert::From<&str>>::from",
+             "<alloc::string::String as core::convert::From<&alloc::string::String>>::from", "alloc::string::String::into_boxed_str",
+             "<alloc::string::String as core::convert::From<alloc::boxed::Box<str>>>::from", "alloc::str::<impl str>::into_string",
+             "<alloc::string::String as core::borrow::Borrow<str>>::borrow", "<alloc::string::String as core::convert::AsRef<str>>::as_ref"}
+
+
+def _str_conv(name, t):
+    """the callee converts between string representations without changing the text"""
+    if name in _STR_CONV:
+        return True
+    tys = [x["d"]["s"] for x in (t or {}).get("targs", [])]
+    if name in ("<T as alloc::string::ToString>::to_string", "alloc::string::ToString::to_string", "alloc::borrow::ToOwned::to_owned", "<T as alloc::borrow::ToOwned>::to_owned"):
+        return len(tys) >= 1 and tys[0] in _STRS
+    if name in ("<T as core::convert::Into<U>>::into", "core::convert::Into::into", "<T as core::convert::From<T>>::from"):
+        return len(tys) >= 1 and all(x in _STRS for x in tys)
+    return False
 
 
 def is_uom_new(name):
